@@ -299,6 +299,12 @@ class Layout:
             return " "
         return self.rng.choice([" ", " ", "  ", "\n", " \r\n ", "\r"])
 
+    def wsp(self):
+        """after a word operator: the lexer asks for no word boundary there, so none is a legal layout"""
+        if self.rng is not None and self.rng.random() < 0.12:
+            return ""
+        return self.sp()
+
     def osp(self):
         """optional separation"""
         if self.rng is None:
@@ -346,22 +352,22 @@ def render_cmp(sch, lhs, op, lay):
         o = lay.alias(op[1])
         # symbolic operators need no separation; word operators do
         pre = lay.sp() if is_word(o) else lay.osp()
-        post = lay.sp() if is_word(o) else lay.osp()
+        post = lay.wsp() if is_word(o) else lay.osp()
         return l + pre + o + post + render_rhs(op[2], lay.rng)
     if kind == "band":
         o = lay.alias("band")
         pre = lay.sp() if is_word(o) else lay.osp()
-        post = lay.sp() if is_word(o) else lay.osp()
+        post = lay.wsp() if is_word(o) else lay.osp()
         return l + pre + o + post + str(op[1])
     if kind == "contains":
-        return l + lay.sp() + "contains" + lay.sp() + render_bytes(op[1], op[2] if len(op) > 2 else None, lay.rng)
+        return l + lay.sp() + "contains" + lay.wsp() + render_bytes(op[1], op[2] if len(op) > 2 else None, lay.rng)
     if kind == "in-int":
         items = [(str(a) if a == b else "%d..%d" % (a, b)) for a, b in op[1]]
-        return l + lay.sp() + "in" + lay.sp() + "{" + lay.osp() + lay.sp().join(items) + lay.osp() + "}"
+        return l + lay.sp() + "in" + lay.wsp() + "{" + lay.osp() + lay.sp().join(items) + lay.osp() + "}"
     if kind == "in-bytes":
         items = [render_bytes(b, None, lay.rng) if isinstance(b, bytes) else render_bytes(b[0], b[1], lay.rng)
                  for b in op[1]]
-        return l + lay.sp() + "in" + lay.sp() + "{" + lay.osp() + lay.sp().join(items) + lay.osp() + "}"
+        return l + lay.sp() + "in" + lay.wsp() + "{" + lay.osp() + lay.sp().join(items) + lay.osp() + "}"
     if kind == "in-ip":
         items = []
         for it in op[1]:
@@ -377,14 +383,14 @@ def render_cmp(sch, lhs, op, lay):
                     items.append(render_ip(t, a))
                 else:
                     items.append(render_ip(t, a) + "/" + str(b))
-        return l + lay.sp() + "in" + lay.sp() + "{" + lay.osp() + lay.sp().join(items) + lay.osp() + "}"
+        return l + lay.sp() + "in" + lay.wsp() + "{" + lay.osp() + lay.sp().join(items) + lay.osp() + "}"
     if kind == "inlist":
-        return l + lay.sp() + "in" + lay.sp() + "$" + op[2].decode()
+        return l + lay.sp() + "in" + lay.wsp() + "$" + op[2].decode()
     if kind == "matches":
         # ("matches", pattern[, ("raw", n)]): a quoted regex literal only un-escapes \" (outside a class)
         o = lay.alias("matches")
         pre = lay.sp() if is_word(o) else lay.osp()
-        post = lay.sp() if is_word(o) else lay.osp()
+        post = lay.wsp() if is_word(o) else lay.osp()
         pat = op[1].decode("utf-8")
         if len(op) > 2:
             n = op[2][1]
@@ -395,7 +401,7 @@ def render_cmp(sch, lhs, op, lay):
     if kind == "wildcard":
         # ("wildcard", strict, pattern[, fmt])
         word = "strict wildcard" if op[1] else "wildcard"
-        return l + lay.sp() + word + lay.sp() + render_bytes(op[2], op[3] if len(op) > 3 else None, lay.rng)
+        return l + lay.sp() + word + lay.wsp() + render_bytes(op[2], op[3] if len(op) > 3 else None, lay.rng)
     raise ValueError(op)
 
 
@@ -408,7 +414,7 @@ def render_lexpr(sch, e, lay):
         for p in parts[1:]:
             a = lay.alias(o)
             if is_word(a):
-                out += lay.sp() + a + lay.sp() + p
+                out += lay.sp() + a + lay.wsp() + p
             else:
                 out += lay.osp() + a + lay.osp() + p
         return out
@@ -419,7 +425,7 @@ def render_lexpr(sch, e, lay):
     if k == "not":
         a = lay.alias("not")
         inner = render_lexpr(sch, e[1], lay)
-        return a + (lay.sp() if is_word(a) else lay.osp()) + inner
+        return a + (lay.wsp() if is_word(a) else lay.osp()) + inner
     if k == "qi":
         return e[1] + lay.osp() + "(" + lay.osp() + render_iexpr(sch, e[2], lay) + lay.osp() + ")"
     if k == "ql":
